@@ -28,6 +28,8 @@ const OFF_STRAT: u64 = 64_000_000;
 const OFF_EXTRA: u64 = 128_000_000;
 /// login-phase think time (used for at most three answers: 256 + 256 + 256 < 1024 and the 512 bit is otherwise free)
 const OFF_THINK: u64 = 256_000_000;
+/// half a millisecond: no sum of the millisecond offsets above ends on it
+const OFF_LOC: u64 = 500_000;
 
 fn lat(rng: &mut Rng, off: u64) -> u64 {
     let base = match rng.below(8) {
@@ -117,6 +119,12 @@ fn generate(rng: &mut Rng) -> ConnScenario {
     if rng.chance(1, 8) {
         services.localization.messages.get_mut("en").expect("default table").remove("disconnect_timeout");
     }
+    // a localization back-end that needs a moment to look the timeout message up (a remote table): the decision
+    // to drop the client is taken at the tick, the Disconnect is written when the text is there; back-end calls
+    // that complete in between, and echoes that arrive in between, change nothing about it
+    if rng.chance(1, 6) {
+        services.localization.timeout_lat_ns = secs(rng.range(1, 5)) + OFF_LOC;
+    }
     ConnScenario {
         seed: rng.next_u64(),
         cfg: ConnCfg { secret: if rng.chance(1, 2) { Some(rng.bytes(16)) } else { None }, expiry: None, max_frame: None, client_addr: gen_addr(rng) },
@@ -137,6 +145,7 @@ fn generate(rng: &mut Rng) -> ConnScenario {
 fn generate_backpressure(rng: &mut Rng) -> ConnScenario {
     use crate::pipe::WRule;
     let mut sc = generate(rng);
+    sc.services.localization.timeout_lat_ns = 0; // this mode times the Disconnect itself
     let c = &mut sc.client;
     c.ka_default = KaPolicy::Never;
     c.ka.clear();
@@ -279,6 +288,9 @@ pub fn check(sc: &ConnScenario, out: &ConnOutcome, rep: &mut RunReport) {
     let end = out.view.packets.iter().find(|p| p.kind == "Transfer" || p.kind == "Disconnect");
     // tick events after the configuration phase started
     let mut ticks: Vec<(u64, bool, u64)> = vec![]; // (time, is_timeout, id)
+    // with a localization back-end that takes a while, the instant that counts for the timeout is the one at which
+    // the handler decided to drop the client (it asks for the text then), not the one at which the text was written
+    let decided = out.events("svc:localization", "start").next().map(|e| e.t_ns);
     for p in &out.view.packets {
         if p.kind == "KeepAlive" {
             if p.t_ns < t_ack.max(t_ls.unwrap_or(0)) {
@@ -286,7 +298,7 @@ pub fn check(sc: &ConnScenario, out: &ConnOutcome, rep: &mut RunReport) {
             }
             ticks.push((p.t_ns, false, p.fields["id"].as_u64().unwrap_or(0)));
         } else if p.kind == "Disconnect" && is_timeout_disconnect(sc, &p.fields["reason"]) {
-            ticks.push((p.t_ns, true, 0));
+            ticks.push((decided.unwrap_or(p.t_ns).min(p.t_ns), true, 0));
         }
     }
     let end_t = end.map(|p| p.t_ns).or(out.done_ns).unwrap_or(out.end_ns);
@@ -339,6 +351,14 @@ pub fn check(sc: &ConnScenario, out: &ConnOutcome, rep: &mut RunReport) {
         }
     }
     let timed_out = ticks.iter().any(|t| t.1);
+    // once the handler has found a Keep Alive unechoed at the next tick, the client is dropped with the timeout
+    // message - whatever completes while the message is being looked up
+    if let Some(d) = decided {
+        if !timed_out {
+            rep.violate("timeout_decision_is_final", format!("the handler found a Keep Alive unechoed at {d} ns and asked for the timeout message, but the client was never sent it: result {} {}, packets {:?}", out.result, out.result_text, out.view.kinds()));
+            return;
+        }
+    }
     // a connection that ends for a missed keep-alive tells the client so, in the configured words (whatever locale
     // the client reported, or none at all, if it had not sent Client Information yet)
     if out.result == "MissedKeepAlive" && !timed_out {
